@@ -224,6 +224,18 @@ def run_side_with_hangs(exe, cases, wd, tag, extra, limit_note):
         if p.returncode == 3 or p.returncode < 0 or p.returncode == 134:
             # watchdog (hang), or the process was killed / aborted (memory limit, stack overflow)
             out[done] = "hang" if p.returncode == 3 else f"abort({p.returncode})"
+            if p.returncode == 3:
+                # a case that passed its time limit is run once more, alone and with four times the limit, before it is
+                # believed (a busy machine is not a hang)
+                one = os.path.join(wd, f"{tag}.confirm.cases")
+                with open(one, "w") as f:
+                    f.write(f"E {cases[done]['env']}\n{C.codec_line(cases[done])}\n")
+                ex2 = [("--limit-ms=%d" % (4 * int(x.split("=")[1]))) if x.startswith("--limit-ms=") else x for x in extra]
+                pr = subprocess.run([exe, "codec", one] + ex2, stdout=subprocess.PIPE, stderr=subprocess.PIPE, text=True,
+                                    env=dict(os.environ, TZ="UTC"))
+                res = [l for l in pr.stdout.splitlines() if l != "env"]
+                if pr.returncode == 0 and len(res) == 1:
+                    out[done] = res[0]
             hangs += 1
             with open(os.path.join(wd, "hangs.log"), "a") as hf:
                 hf.write(f"{out[done]} {C.codec_line(cases[done])[:300]}\n")
